@@ -104,7 +104,11 @@ def apply_value(st, fv, args, kwargs, n=None):
             raise Undecided('no contract for %s.%s' % (f.cls, f.name))
         if c.static:
             return call_contract(st, c, args, kwargs, n)
-        return call_contract(st, c, [f.recv] + args, kwargs, n)
+        recv = f.recv
+        first = next(iter(c.params.values()), None)
+        if first is not None and first.kind == 'typeobj' and recv.t.kind == 'ref':
+            recv = Val(T.TYPEOBJ, FnV('class', recv.t.name))      # classmethod called through an instance
+        return call_contract(st, c, [recv] + args, kwargs, n)
     if f.kind == 'func':
         return call_contract(st, R.CONTRACTS[f.name], args, kwargs, n)
     if f.kind == 'lambda':
@@ -232,6 +236,8 @@ def bind_args(st, c, args, kwargs, closure_env=None, npos=None):
         except Undecided:
             if env[p].t.kind == 'fn' or ty.kind == 'fn':
                 pass
+            elif ty.kind == 'union' and not ty.args:
+                pass           # parameter of type Any: the value is passed through unboxed
             else:
                 raise Undecided('argument %s of %s: cannot pass %r as %r (line %s)' %
                                 (p, c.key, env[p].t, ty, st.lineno))
@@ -651,7 +657,14 @@ def sf_getattr(st, n):
 
 
 def sf_super(st, n):
-    raise Undecided('bare super() value')
+    """super(C, obj) as a value: attribute access resolves along the MRO after C."""
+    if len(n.args) == 2:
+        cls = n.args[0].id
+        recv = E.ev(st, n.args[1])
+    else:
+        cls = st.fn.cls
+        recv = st.locals['self']
+    return Val(T.Ty('super'), (cls, recv))
 
 
 def sf_cast(st, n):
@@ -679,7 +692,7 @@ def sf_is_type(st, n):
     return E.mk_bool(c)
 
 
-_SYNTACTIC = {'getattr': sf_getattr, 'cast': sf_cast, 'is_type': sf_is_type,'old': sf_old, 'implies': sf_implies, 'iff': sf_iff, 'forall': sf_forall,
+_SYNTACTIC = {'super': sf_super, 'getattr': sf_getattr, 'cast': sf_cast, 'is_type': sf_is_type,'old': sf_old, 'implies': sf_implies, 'iff': sf_iff, 'forall': sf_forall,
               'exists': sf_exists, 'let': sf_let, 'isinstance': sf_isinstance}
 
 
@@ -1037,6 +1050,24 @@ def bi_substr_after_last(st, args, kw):
     return Val(s.t, z3.SubString(s.z, idx + z3.Length(sep.z), z3.Length(s.z) - idx - z3.Length(sep.z)))
 
 
+def bi_substr(st, args, kw):
+    s, lo, n = args
+    return Val(s.t, z3.SubString(s.z, lo.z, n.z))
+
+
+def bi_str_index(st, args, kw):
+    s, sub, start = args
+    return E.mk_int(z3.IndexOf(s.z, sub.z, start.z))
+
+
+def bi_py_int_ok(st, args, kw):
+    return E.mk_bool(z3.Function('py_int_ok', z3.StringSort(), z3.BoolSort())(args[0].z))
+
+
+def bi_py_int_val(st, args, kw):
+    return E.mk_int(z3.Function('py_int_val', z3.StringSort(), z3.IntSort())(args[0].z))
+
+
 def bi_mkseq(st, args, kw):
     a, n = args
     return Val(T.TSeq(a.t.args[1]), SeqV(a.z, n.z))
@@ -1094,7 +1125,7 @@ def bi_dict(st, args, kw):
 
 
 _BUILTINS = {
-    'mkseq': bi_mkseq, 'py_lower': bi_py_lower, 'substr_after_last': bi_substr_after_last, 'pure_IO_encrypted_of': bi_pure_IO_encrypted_of, 'str_prefix': bi_str_prefix, 'nraised': bi_nraised, 'allocated': bi_allocated, 'ncalls': bi_ncalls, 'call_arg': bi_call_arg,
+    'mkseq': bi_mkseq, 'py_int_ok': bi_py_int_ok, 'py_int_val': bi_py_int_val, 'substr': bi_substr, 'str_index': bi_str_index, 'py_lower': bi_py_lower, 'substr_after_last': bi_substr_after_last, 'pure_IO_encrypted_of': bi_pure_IO_encrypted_of, 'str_prefix': bi_str_prefix, 'nraised': bi_nraised, 'allocated': bi_allocated, 'ncalls': bi_ncalls, 'call_arg': bi_call_arg,
     'call_result': bi_call_result, 'trig': bi_trig, 'same': bi_same, 'is_list': bi_is_list, 'store': bi_store, 'dict_has': bi_dict_has,
     'dict_get': bi_dict_get, 'dict_keys': bi_dict_keys, 'dict': bi_dict, 'dict_index': bi_dict_index,
     'len': bi_len, 'set': bi_set, 'list': bi_list, 'tuple': bi_tuple, 'min': bi_min, 'max': bi_max,
